@@ -28,6 +28,19 @@ func VerifCkptFetchLocal(dst *KVStore, srcDataDir string, term uint64, index uin
 	return reused, err
 }
 
+// VerifCkptFetchFrom is VerifCkptFetchLocal for any source: syncAddr "" = a replica on this host
+// (local copy), otherwise the address of the source's rsync daemon with syncDir = module/path of
+// the source's data directory - exactly the (syncAddr, syncDir) pair GetValidBackupInfo returns.
+func VerifCkptFetchFrom(dst *KVStore, syncAddr string, syncDir string, term uint64, index uint64, stop chan struct{}) (string, error) {
+	localPath := dst.GetBackupDir()
+	srcInfo := syncAddr + syncDir
+	srcPath := path.Join(rockredis.GetBackupDir(syncDir), rockredis.GetCheckpointDir(term, index))
+	reused, newPath := handleReuseOldCheckpoint(srcInfo, localPath, term, index, 0)
+	err := common.RunFileSync(syncAddr, srcPath, localPath, stop)
+	postFileSync(newPath, srcInfo)
+	return reused, err
+}
+
 // VerifSyncStore returns the key-value store behind the node's state machine (nil for a
 // log-syncer learner).
 func (nd *KVNode) VerifSyncStore() *KVStore {
